@@ -10,6 +10,7 @@ pub mod c02;
 pub mod c03;
 pub mod c05;
 pub mod c06;
+pub mod c07;
 pub mod c08;
 pub mod c10;
 pub mod c11;
@@ -19,7 +20,7 @@ pub mod c14;
 pub mod c15;
 
 pub fn all() -> Vec<&'static Scenario> {
-    vec![&c01::IDENTITY, &c01::VERIFIERS, &c02::RPC, &c03::EXPECTED, &lifecycle::C04_HISTORY, &direct::C04_DIRECT, &c05::MUTUAL, &direct::C05_DIRECT, &c06::HOSTILE, &c08::SHUTDOWN, &lifecycle::C09_HISTORY, &c10::ADMISSION, &c11::DEADLINE, &c12::ABANDON, &c13::BACKGROUND, &c14::NAMES, &c15::LIMITS]
+    vec![&c01::IDENTITY, &c01::VERIFIERS, &c02::RPC, &c03::EXPECTED, &lifecycle::C04_HISTORY, &direct::C04_DIRECT, &c05::MUTUAL, &direct::C05_DIRECT, &c06::HOSTILE, &c07::STREAM, &c07::CLOSED_SETS, &c08::SHUTDOWN, &lifecycle::C09_HISTORY, &c10::ADMISSION, &c11::DEADLINE, &c12::ABANDON, &c13::BACKGROUND, &c14::NAMES, &c15::LIMITS]
 }
 
 pub fn for_property(id: &str) -> Vec<&'static Scenario> {
